@@ -4,6 +4,7 @@ Only property theorems and non-vacuity examples live here; helper lemmas are in 
 -/
 import SfntV.Proofs.CffIndex
 import SfntV.Proofs.CffDict
+import SfntV.Proofs.CffReal
 import SfntV.Proofs.CffCharset
 import SfntV.Proofs.CffFdselect
 import SfntV.Proofs.CffWidths
@@ -87,6 +88,59 @@ example : encodeInt 107 = [246] ∧ encodeInt 108 = [247, 0] ∧ encodeInt 1131 
     encodeInt 1132 = [28, 4, 108] ∧ encodeInt (-107) = [32] ∧ encodeInt (-108) = [251, 0] ∧
     encodeInt (-1131) = [254, 255] ∧ encodeInt (-1132) = [28, 251, 148] ∧
     encodeInt 32768 = [29, 0, 0, 128, 0] ∧ encodeInt (-32769) = [29, 255, 255, 127, 255] := by decide
+
+/-! ## DICT reals (nibble coding)
+
+`encodeFloat(x float64)` first computes, in floating point, the nine-digit integer `i` and the
+position `l` of the decimal point (`x ≈ ±0.i · 10^l`); that step is trusted (DESIGN §7) and
+compared by correspondence on decimals of at most nine digits.  Everything after it — stripping
+zeros, the eight layouts, nibble packing — and the whole decoder up to the exact decimal value
+are modelled and proved here. -/
+
+/-- Nibble transport is lossless: the nibble string (any nibbles except the terminator `f`)
+packed by `encodeFloat` is unpacked by `decodeFloat` to the same string, and the decoder stops
+right behind the byte holding the terminator. -/
+theorem C13_dictreal_nibbles (ns : List Nat) (h : ∀ x ∈ ns, x < 15) (rest : Bytes) :
+    floatNibbles (packNibbles ns ++ rest) = some (ns, rest) :=
+  floatNibbles_pack rest ns h
+
+/-- The decimal string written for `(neg, i, l)` (any `i > 0`, any `l`) is accepted by
+`ParseFloat`'s grammar and denotes exactly `± 0.i · 10^l`: mantissa `i'·10^k` and exponent
+`l − m − k`, where `i'` is `i` without trailing zeros, `m` its number of digits and `k ≤ 2`
+(layouts "digits 0"/"digits 00"). -/
+theorem C13_dictreal_decimal (neg : Bool) (i : Nat) (hi : 0 < i) (l : Int) :
+    ∃ k : Nat, k ≤ 2 ∧ parseDec ((realNibbles neg i l).flatMap nibChars)
+      = some (neg, stripZeros 20 i * 10 ^ k,
+          l - ((digitsOf (stripZeros 20 i)).length : Int) - (k : Int)) :=
+  parseDec_realNibbles neg i hi l
+
+/-- Bytes: `decodeFloat (encodeFloat …)` equals range-check/clamp/normalisation (`clampValue`)
+applied to that exact decimal, and consumes exactly the bytes written. -/
+theorem C13_dictreal_roundtrip_partial (neg : Bool) (i : Nat) (hi : 0 < i) (l : Int) (rest : Bytes) :
+    ∃ k : Nat, k ≤ 2 ∧ decodeReal (encodeReal neg i l ++ rest) =
+      match clampValue (neg, stripZeros 20 i * 10 ^ k,
+          l - ((digitsOf (stripZeros 20 i)).length : Int) - (k : Int)) with
+      | .ok (ng, m, e) => .ok (.real ng m e, rest)
+      | .err e => .err e
+      | .panic s => .panic s :=
+  decodeReal_encodeReal neg i hi l rest
+
+/-- The full statement: for nine-digit `i` and `|l| ≤ 290` (so that neither the float64 range
+nor the ±1e300 / 1e-300 clamps of `decodeFloat` interfere) the decoded operand is the written
+decimal in normal form.  Missing for it: `clampValue (neg, i'·10^k, l−m−k) = ok (neg, i', l−m)`
+in that range (arithmetic on `numDigits`/`stripZeros` and the bounds 2^1024, 10^±300); it is
+evaluated by the correspondence streams `cff.real.dec` and `cff.dict.specdec` only. -/
+def C13_dictreal_roundtrip_full : Prop :=
+  ∀ (neg : Bool) (i : Nat) (l : Int) (rest : Bytes), 100000000 ≤ i → i < 1000000000 →
+    -290 ≤ l → l ≤ 290 →
+    decodeReal (encodeReal neg i l ++ rest)
+      = .ok (.real neg (stripZeros 20 i) (l - (numDigits (stripZeros 20 i) : Int)), rest)
+
+-- 1230, 0.00123, -1.5e20 written and read back
+example : encodeReal false 123000000 4 = [0x12, 0x30, 0xff] := by decide
+example : parseDec ((realNibbles false 123000000 4).flatMap nibChars) = some (false, 1230, 0) := by decide
+example : parseDec ((realNibbles false 123000000 (-2)).flatMap nibChars) = some (false, 123, -5) := by decide
+example : parseDec ((realNibbles true 150000000 21).flatMap nibChars) = some (true, 15, 19) := by decide
 
 /-! ## charset -/
 
